@@ -29,7 +29,7 @@ LEVEL = "model_checking"
 
 N = {
     "quick": dict(beh=60, beh_depth=8, rich=70, c07_explore=20, sched={"basic": 260, "interpod": 90, "reserved": 90}, grid=6, procs=4, par=4),
-    "thorough": dict(beh=900, beh_depth=12, rich=1500, c07_explore=400, sched={"basic": 3000, "interpod": 900, "reserved": 900}, grid=60, procs=8, par=8),
+    "thorough": dict(beh=3000, beh_depth=12, rich=6000, c07_explore=1200, sched={"basic": 10000, "interpod": 3000, "reserved": 3000}, grid=150, procs=8, par=8),
 }
 WEAKENINGS = ["liveNode", "sortInPlace", "nominateInSim", "relaxHeld", "passBooksUsage", "simWrites"]
 
@@ -38,6 +38,10 @@ def closed_models(run):
     r = run.closed_model("Frame", "Frame_MC.cfg", workers=4, heap="3g", coverage=True, timeout=1500)
     if r.coverage_zero:
         raise vlib.InfraError("vacuous closed model Frame, actions never taken: %s" % r.coverage_zero)
+    if run.tier == "thorough":        # behaviours of length 8 (504 519 states)
+        cfg = open(os.path.join(run.specdir, "Frame_MC.cfg")).read().replace("MaxLen = 6", "MaxLen = 8")
+        open(os.path.join(run.specdir, "Frame_MC8_run.cfg"), "w").write(cfg)
+        run.closed_model("Frame", "Frame_MC8_run.cfg", workers=8, heap="6g", timeout=3000)
     rejected = []
     if run.tier == "quick":
         w = run.tlc("Frame", "Frame_WeakAll.cfg", workers=4, heap="3g", timeout=900)
